@@ -620,6 +620,44 @@ pub fn run(opts: &Opts) -> Report {
             if *ms > 5000 { rep.fail("oracle", &format!("C19/{}/slow/{}", c.format, c.class), doc(), "time proportional to the input", &format!("{} ms for {} bytes", ms, c.main.len())); }
         }
     }
+    // a file merged into a store / a dataset that holds something already (`with_file`): JSON merges, CSV may be refused
+    {
+        let sub = dir.join("withfile");
+        std::fs::create_dir_all(&sub).ok();
+        let (st0, _) = base_store(opts.seed, 1);
+        let csvp = sub.join("m.store.stam.csv"); let jsonp = sub.join("m.store.stam.json");
+        let mut w = st0;
+        let wrote_j = guarded(std::panic::AssertUnwindSafe(|| w.to_file(jsonp.to_str().unwrap())));
+        let mut w2 = AnnotationStore::from_file(jsonp.to_str().unwrap(), Config::default()).ok();
+        let wrote_c = w2.as_mut().map(|w2| guarded(std::panic::AssertUnwindSafe(|| w2.to_file(csvp.to_str().unwrap()))));
+        if matches!(wrote_j, Ok(Ok(()))) {
+            for (what, path, there) in [("json", &jsonp, true), ("csv", &csvp, matches!(wrote_c, Some(Ok(Ok(())))))] {
+                if !there { continue; }
+                rep.count(&format!("with_file:nonempty-store:{}", what));
+                rep.case(Some(&format!("with_file nonempty-store {}", what)));
+                let r = guarded(std::panic::AssertUnwindSafe(|| -> Result<usize, StamError> {
+                    let st = AnnotationStore::default().with_id("other").with_resource(TextResourceBuilder::new().with_id("other-r").with_text("other text"))?;
+                    Ok(st.with_file(path.to_str().unwrap())?.resources_len())
+                }));
+                if let Err(m) = r { rep.fail("panic", &format!("C19/{}/with_file-on-a-store-that-holds-something-panics", what), vec![format!("AnnotationStore (one resource) .with_file(<a valid {} store>)", what)], "Ok or Err", &m); }
+            }
+        }
+        // datasets
+        let dj = sub.join("d.dataset.stam.json");
+        std::fs::write(&dj, "{\"@type\": \"AnnotationDataSet\", \"@id\": \"d\", \"keys\": [{\"@type\": \"DataKey\", \"@id\": \"k\"}], \"data\": [{\"@type\": \"AnnotationData\", \"@id\": \"D1\", \"key\": \"k\", \"value\": {\"@type\": \"String\", \"value\": \"v\"}}]}").ok();
+        let dc = sub.join("d.dataset.stam.csv");
+        std::fs::write(&dc, "Id,Key,Value\nD1,k,v\n").ok();
+        for (what, path) in [("json", &dj), ("csv", &dc)] {
+            rep.count(&format!("with_file:nonempty-dataset:{}", what));
+            rep.case(Some(&format!("with_file nonempty-dataset {}", what)));
+            let r = guarded(std::panic::AssertUnwindSafe(|| -> Result<usize, StamError> {
+                let mut ds = AnnotationDataSet::new(Config::default()).with_id("mine");
+                ds.insert_data(BuildItem::None, "own", "x", true)?;
+                Ok(ds.with_file(path.to_str().unwrap())?.keys_len())
+            }));
+            if let Err(m) = r { rep.fail("panic", &format!("C19/{}/with_file-on-a-dataset-that-holds-something-panics", what), vec![format!("AnnotationDataSet (one key) .with_file(<a valid {} dataset>)", what)], "Ok or Err", &m); }
+        }
+    }
     std::fs::remove_dir_all(&dir).ok();
     parsers_stream(&mut rep, &mut rng, if opts.thorough() { 3000 } else { 400 });
     tempid_stream(&mut rep, &mut rng, if opts.thorough() { 3000 } else { 400 });
